@@ -23,7 +23,7 @@ def packer(name, bits, ncalls, dmin, dmax, timeout, extra=(), nmax=None, desc=''
     callbytes = (nmax * bits + 7) // 8
     tmax = ncalls * nmax + (ncalls - 1) * max(dmax, 0)
     maxblk = tmax // block + 2
-    unwind = max(callbytes, maxblk, (block * bits) // 8, 8, ncalls) + 3
+    unwind = max(callbytes, maxblk, (block * bits) // 8, 8, ncalls, block) + 3
     blkbytes = (block * bits) // 8
     ov = dmin < 0
     gap = dmax > 0
@@ -71,7 +71,7 @@ def reader(name, bits, nblk, timeout, tiers=('quick', 'thorough')):
 def obligations(tier):
     o = []
     for bits in WIDTHS:
-        o.append(reader('O2_reader_w%d' % bits, bits, 3, 600 if tier == 'quick' else 1800))
+        o.append(reader('O2_reader_w%d' % bits, bits, 3 if bits < 64 else 2, 600 if tier == 'quick' else 1800))
     for bits in WIDTHS:
         o.append(packer('O1_packer_w%d_1call' % bits, bits, 1, 0, 0, 300))
         o.append(packer('O1_packer_w%d_2calls' % bits, bits, 2, 0, 0, 600 if tier == 'quick' else 1800, nmax=BLOCKS[bits] + 3))
